@@ -83,6 +83,32 @@ def run(ctx):
             samples.append(rep)
         if len(ctx.violations) > 30:
             break
+    # systematic part of relation (c): every comparison trait, alone vs. with every co-derived subset of the other comparison traits,
+    # on fields carrying only helper attributes that belong to that trait
+    import itertools, cmpfam
+    for t in R.CMP_TRAITS:
+        acc = [c for c in cmpfam.accepted_for((t,)) if any(c[a] for a in R.OPS)]
+        for c in rng.sample(acc, min(len(acc), 12 if ctx.quick else 200)):
+            at = R.attr_text(c)
+            for item in ("struct X { %s a: u8, b: u8 }" % at, "enum X { A, B(u8, %s u8) }" % at):
+                alone = impls_of(ex.derive("#[derive_ex(%s)] %s" % (t, item)), False)
+                evals += 1
+                others = [u for u in R.CMP_TRAITS if u != t]
+                for k in range(1, len(others) + 1):
+                    for co in itertools.combinations(others, k):
+                        lst = [t] + list(co) if (k % 2) else list(co) + [t]
+                        r = impls_of(ex.derive("#[derive_ex(%s)] %s" % (", ".join(lst), item)), False)
+                        evals += 1
+                        nontriv += 1
+                        pt = per_trait(r, lst) if r is not None else None
+                        got = pt[lst.index(t)] if pt else None
+                        if got != alone:
+                            ctx.violation("B:C15:coderived:%s:%s:%s" % (t, "+".join(lst), item), "impl of %s changes when %s are derived alongside (the item carries only helper attributes that belong to %s)" % (t, ", ".join(co), t),
+                                          {"layer": "B", "item": item, "args": ", ".join(lst), "trait": t, "alone": alone, "together": got})
+                            break
+                    else:
+                        continue
+                    break
     ex.close()
     g = glayer.run_g(ctx, G_UNITS)
     ctx.assumptions += [
